@@ -652,7 +652,13 @@ func applyFailoverPriorityPerLocality(
 		var weight uint32
 		for _, index := range priorityMap[priority] {
 			out[i].LbEndpoints = append(out[i].LbEndpoints, ep.LocalityLbEndpoints.LbEndpoints[index])
-			weight += ep.LocalityLbEndpoints.LbEndpoints[index].GetLoadBalancingWeight().GetValue()
+			// saturate rather than wrap, as the endpoint builder does when it sums the same members
+			w := ep.LocalityLbEndpoints.LbEndpoints[index].GetLoadBalancingWeight().GetValue()
+			if math.MaxUint32-weight < w {
+				weight = math.MaxUint32
+			} else {
+				weight += w
+			}
 		}
 		// reset weight
 		out[i].LoadBalancingWeight = &wrappers.UInt32Value{
